@@ -91,6 +91,31 @@ Proof.
   destruct (branch_of m d tgt); [|now apply Hc]. apply filter_In in H as [H _]. now apply Hc.
 Qed.
 
+(* with a history target the exit set is computed from what the pseudo-state resolves to; any other target: as above *)
+Lemma exit_set_h_plain m C H d tgt : is_history m tgt = false -> exit_set_h m C H d tgt = exit_set m C d tgt.
+Proof. unfold exit_set_h. now intros ->. Qed.
+
+Lemma exit_set_h_sub m C H d tgt x : In x (exit_set_h m C H d tgt) -> In x C /\ is_desc m x d = true /\ x <> d.
+Proof.
+  unfold exit_set_h. intros Hx.
+  assert (Hc : In x (filter (fun s => is_desc m s d && negb (Nat.eqb s d)) C) -> In x C /\ is_desc m x d = true /\ x <> d).
+  { intros Hin. apply filter_In in Hin as [Hin Hf]. apply andb_prop in Hf as [H1 H2]. split; [exact Hin|]. split; [exact H1|].
+    apply negb_true_iff in H2. now apply Nat.eqb_neq. }
+  destruct (is_history m tgt); [|now apply (exit_set_sub m C d tgt)].
+  destruct (is_parallel m d); [|now apply Hc].
+  apply filter_In in Hx as [Hx _]. now apply Hc.
+Qed.
+
+(* a history target under a parallel domain: exactly the regions holding a state about to be restored are exited *)
+Lemma exit_set_h_scoped m C H d tgt x :
+  is_history m tgt = true -> is_parallel m d = true -> In x (exit_set_h m C H d tgt) ->
+  exists y b, In y (resolve_history m H tgt) /\ branch_of m d y = Some b /\ is_desc m x b = true.
+Proof.
+  unfold exit_set_h. intros Hh Hp Hx. rewrite Hh, Hp in Hx. apply filter_In in Hx as [_ Hx].
+  apply existsb_exists in Hx as [b [Hb Hd]]. apply in_flat_map in Hb as [y [Hy Hb]].
+  exists y, b. destruct (branch_of m d y) as [b'|] eqn:E; [|destruct Hb]. destruct Hb as [<-|[]]. now repeat split.
+Qed.
+
 (* leaving a parallel domain for a target inside one of its regions exits that region only: the sibling regions
    are not touched *)
 Lemma exit_set_parallel_scoped m C d tgt b x :
